@@ -196,7 +196,34 @@ def bounded(tier, seed, procs):
             if want[0] == "val" and not (got[0] == "val" and got[1] == want[1]):
                 b2.fail(Failure("non-commuting", f"program={i} tree={built[1] if built[0] == 'val' else None!r}", dict(kind="mat", program=i),
                                 expected=outcome.describe(want), actual=outcome.describe(got), functions=["Product.__mul__", "Expression.__mul__"]))
-    return [b, b2, b_constructors(tier)]
+    return [b, b2, b_constructors(tier), b_linear_combination(tier)]
+
+
+def b_linear_combination(tier):
+    import pymbolic.primitives as p
+    from pymbolic.mapper.evaluator import EvaluationMapper
+    b = BoundedRun("linear-combination", rule="linear_combination(coefficients, expressions) for all coefficient / expression lists of length 0..3 over {0, 1, -2, x, x+y} x {0, 1, y, "
+                   "x*y, 3}: the tree evaluates to sum(c*e) in every environment of the box (zero coefficients and zero expressions may be dropped, nothing else)",
+                   bound="lengths 0..3, 5x5 alphabet, 4 environments", functions=["linear_combination"])
+    x, y = trees.X, trees.Y
+    cs = [0, 1, -2, x, p.Sum((x, y))]
+    es = [0, 1, y, p.Product((x, y)), 3]
+    envs = [dict(x=2, y=5), dict(x=-1, y=Fraction(1, 2)), dict(x=0, y=3), dict(x=Fraction(-3, 2), y=-4)]
+    for n in range(0, 4):
+        for cc in itertools.product(cs, repeat=n):
+            for ee in itertools.product(es, repeat=n):
+                if n == 3 and tier != "thorough" and (hash((repr(cc), repr(ee))) % 7):
+                    continue
+                built = outcome.run(lambda: p.linear_combination(cc, ee))
+                b.case(("lc", repr(cc), repr(ee)), sample=dict(coefficients=[repr(c) for c in cc], expressions=[repr(e) for e in ee]))
+                for env in envs:
+                    want = sum((EvaluationMapper(env)(c) * EvaluationMapper(env)(e) for c, e in zip(cc, ee)), 0)
+                    got = outcome.run(lambda: EvaluationMapper(env)(built[1])) if built[0] == "val" else built
+                    if not (got[0] == "val" and outcome.same_value(got[1], want, typed=False)):
+                        b.fail(Failure("linear-combination", f"coefficients={cc!r} expressions={ee!r} x={env['x']} y={env['y']}", dict(kind="lc", c=repr(cc), e=repr(ee)),
+                                       expected=repr(want), actual=outcome.describe(got)[:150], functions=["linear_combination"]))
+                        break
+    return b
 
 
 class _Obj:
